@@ -70,6 +70,7 @@ func ZzvC07Allocate() {
 		able += zzverif.IteInt64(fits(i), 1, 0)
 	}
 	if status.IsSuccess() {
+		zzverif.Reach("allocation-succeeded")
 		zzverif.Assert(len(allocs) == want, "a successful allocation gives the pod the requested number of devices")
 		seen := map[int32]bool{}
 		for _, a := range allocs {
@@ -83,6 +84,7 @@ func ZzvC07Allocate() {
 			zzverif.Assert(zzvCoreOf(a.Resources) == req, "each device is charged the requested amount")
 		}
 	} else {
+		zzverif.Reach("allocation-failed")
 		zzverif.Assert(able < int64(want), "allocation fails only if fewer devices than requested have the requested amount free")
 	}
 	zzverif.Reach("end")
